@@ -259,8 +259,8 @@ func (e *Evaluator) evalComponentStmt(node *ast.ComponentStmt, env *object.Env) 
 	newEnv := object.NewEnclosedEnv(env)
 
 	if node.Argument != nil {
-		for key, arg := range node.Argument.Pairs {
-			val := e.Eval(arg, env)
+		for _, key := range node.Argument.SortedKeys() {
+			val := e.Eval(node.Argument.Pairs[key], env)
 
 			if isError(val) {
 				return val
@@ -633,8 +633,8 @@ func (e *Evaluator) evalArrayLiteral(
 func (e *Evaluator) evalObjectLiteral(node *ast.ObjectLiteral, env *object.Env) object.Object {
 	pairs := make(map[string]object.Object)
 
-	for key, value := range node.Pairs {
-		valueObj := e.Eval(value, env)
+	for _, key := range node.SortedKeys() {
+		valueObj := e.Eval(node.Pairs[key], env)
 
 		if isError(valueObj) {
 			return valueObj
